@@ -403,7 +403,15 @@ fn c10_model(zone_name: &str, az: f32, tilt: f32, fsh: usize, cons: usize, mult:
     let w = wall("X", BOUNDS[bounds], uid("wc"), uid("SI"), if bounds == 1 { Some(uid("SO")) } else if leftover { Some(uid("SI")) } else { None }, geom(tilt, az, pos, rect(4.0, 3.0)));
     let wid = w.id;
     m.walls.push(w);
-    let c = if cons == 0 { uid("winc") } else { uid("missing-wincons") };
+    let c = match cons {
+        0 => uid("winc"),
+        1 => uid("missing-wincons"),
+        _ => {
+            // a construction that exists, with a frame share and a shading factor of its own, whose glazing does not
+            m.cons.wincons.push(wincons("winc-dg", uid("dangling-glass"), uid("fr"), 0.35, 0.0, Some(0.3), 27.0));
+            uid("winc-dg")
+        }
+    };
     let v = window("X_v", c, wid, if fsh == 1 { Some([1.0, 1.0]) } else { None }, 1.5, 1.2, 0.0);
     if fsh == 0 {
         m.overrides.windows.insert(v.id, WinPropsOverrides { u_value: None, f_shobst: Some(0.37), ..Default::default() });
@@ -428,7 +436,7 @@ pub fn run10(ctx: &Ctx) -> i32 {
         Tier::Thorough => ALL_ZONES.to_vec(),
     };
     let azs = az_alphabet();
-    let g = Grid::new(&[("zone", zones.len()), ("azimuth", azs.len()), ("tilt", C10_TILTS.len()), ("f_shobst{override,computed,none,computed + U-only override entry}", 4), ("cons{ok,missing}", 2), ("mult", 2), ("bounds", 4)]);
+    let g = Grid::new(&[("zone", zones.len()), ("azimuth", azs.len()), ("tilt", C10_TILTS.len()), ("f_shobst{override,computed,none,computed + U-only override entry}", 4), ("cons{ok,missing,present with a dangling glazing}", 3), ("mult", 2), ("bounds", 4)]);
     let n = g.size();
     let accs = par_fold(n, |i, acc: &mut Acc| {
         let t = g.unrank(i);
@@ -695,6 +703,38 @@ pub fn run11(ctx: &Ctx) -> i32 {
         }
     }
     all_accs.push(acc3);
+    // (a') the rate used inside the U-value calculation is the reported one also on a second evaluation of one model
+    // object whose volume was edited in between: a partition towards an unconditioned space without a rate of its own
+    // gets the U-value a fresh copy of the edited model gets (evaluated on another thread), and the reported rates agree
+    {
+        let mut hist = Acc::default();
+        for (k, (mult, dh, flow)) in [(1.0f32, 3.0f32, 30.0f32), (2.5, 1.5, 30.0), (1.0, 0.5, 12.5), (2.5, 3.0, 60.0)].into_iter().enumerate() {
+            let mut m = context("D3", mult);
+            m.meta.global_ventilation_l_s = Some(flow);
+            m.spaces[1].n_v = None;
+            m.walls.push(wall("X", BoundaryType::INTERIOR, uid("wc"), uid("SI"), Some(uid("SO")), geom(90.0, 0.0, Some([0.0, 4.0, 0.0]), rect(4.0, 3.0))));
+            m.walls.push(wall("SO_S", BoundaryType::EXTERIOR, uid("wc"), uid("SO"), None, geom(90.0, 0.0, Some([5.0, 0.0, 0.0]), rect(3.0, 2.7))));
+            let first = m.energy_indicators();
+            m.spaces[0].height += dh;
+            let second = m.energy_indicators();
+            let q = m.clone();
+            let fresh = std::thread::spawn(move || q.energy_indicators()).join();
+            hist.n += 3;
+            let case = || json!({"part": "ventilation-rate-history", "variant": k, "multiplier": mult, "height_added": dh, "l_s": flow});
+            match fresh {
+                Ok(fresh) => {
+                    hist.nontriv += 1;
+                    let u = |i: &energy::EnergyIndicators| i.props.walls.get(&uid("X")).and_then(|w| w.u_value);
+                    if u(&second) != u(&fresh) || second.props.global.global_ventilation_rate.to_bits() != fresh.props.global.global_ventilation_rate.to_bits() {
+                        ctx.violation("ventilation-rate:stale-after-edit", &format!("after the first evaluation (partition U {:?}, rate {}) the conditioned space was made {} m higher: the same object gives U {:?} at rate {}, a fresh copy of it U {:?} at rate {}", u(&first), first.props.global.global_ventilation_rate, dh, u(&second), second.props.global.global_ventilation_rate, u(&fresh), fresh.props.global.global_ventilation_rate), case());
+                    }
+                    hist.outcomes.insert(hash64(&(u(&second).map(f32::to_bits), k)));
+                }
+                Err(_) => ctx.violation("ventilation-rate:panic-on-fresh-copy", "evaluating a fresh copy on another thread panicked", case()),
+            }
+        }
+        all_accs.push(hist);
+    }
     // (d) classifier sweep
     let swept = crate::c11::sweep(ctx);
     for a in &all_accs {
@@ -706,7 +746,7 @@ pub fn run11(ctx: &Ctx) -> i32 {
     ctx.sample(json!({"part": "aggregates", "specs": [17, 93]}));
     ctx.finish(
         "model_checking",
-        &format!("(a) envelope membership + areas/volumes/compactness/ventilation-rate on the 4608 single-element configurations of C08; (b) generated buildings: every combination of 1..{} spaces x (kind 3 x inside 2 x multiplier{{1,2,.5}} x floors{{1,2}} x ceiling{{none, own roof, floor of the space above, own ceiling next to the space above}}) = 144^k models, every 5th of the multi-space ones also with the walls stored round-robin across spaces and the spaces reversed; (c) every 7th of those re-scaled by s in {{1/4,1/2,2,4}} (areas x s^2, volumes x s^3, compactness x s within the 0.01 rounding quantum); (d) {} f32 angles for Tilt/Orientation classification and the parser-vs-model tilt classes; shipped models; non-trivial = indicators computed", maxsp, swept),
+        &format!("(a) envelope membership + areas/volumes/compactness/ventilation-rate on the 4608 single-element configurations of C08; (a') four histories evaluate - make the conditioned space higher in place - evaluate, the partition towards an unconditioned space without a rate of its own compared with a fresh copy evaluated on another thread; (b) generated buildings: every combination of 1..{} spaces x (kind 3 x inside 2 x multiplier{{1,2,.5}} x floors{{1,2}} x ceiling{{none, own roof, floor of the space above, own ceiling next to the space above}}) = 144^k models, every 5th of the multi-space ones also with the walls stored round-robin across spaces and the spaces reversed; (c) every 7th of those re-scaled by s in {{1/4,1/2,2,4}} (areas x s^2, volumes x s^3, compactness x s within the 0.01 rounding quantum); (d) {} f32 angles for Tilt/Orientation classification and the parser-vs-model tilt classes; shipped models; non-trivial = indicators computed", maxsp, swept),
         true,
         json!({"configs": n, "aggregate_models": total_b, "angles_swept": swept}),
     )
